@@ -45,6 +45,8 @@ pub enum Step {
     /// add a field that may stay uninitialised (Copy types only)
     AddU(&'static str, Ty),
     Rm(&'static str),
+    /// add a field and remove it again before the variant is closed
+    AddRm(&'static str, Ty),
     Close(Strat),
 }
 pub use Step::*;
@@ -159,6 +161,36 @@ pub fn family() -> Vec<Def> {
                 Add("s", Tracked), Add("h", TBox), Close(Simple),
                 AddU("c", U32), AddU("d", U8), Close(Simple),
                 Rm("c"), Close(Simple),
+            ],
+        },
+        // fields added and removed again before their variant is closed (sized and zero-size), followed by later additions
+        Def {
+            name: "pending",
+            tier: "quick",
+            steps: vec![
+                Add("a", U32), AddRm("tmp", U64), Add("b", U16), Close(Simple),
+                AddRm("tmz", Zst), Add("n", P24), Add("t", Tracked), Close(Simple),
+                Rm("a"), AddRm("tmq", TBox), Add("c", U8), Close(Basic),
+            ],
+        },
+        // several zero-size fields (one droppable) added by one conversion next to a sized one
+        Def {
+            name: "zst2",
+            tier: "quick",
+            steps: vec![
+                Add("a", U32), Close(Simple),
+                Add("k", ZstDrop), Add("m", Zst), Add("n", U64), Close(Simple),
+                Rm("a"), Add("j", ZstDrop), Add("w", ZstA8), Close(Simple),
+            ],
+        },
+        // a hole whose end is not aligned for the data added into it, filled by several additions of one conversion
+        Def {
+            name: "endgap",
+            tier: "quick",
+            steps: vec![
+                Add("a", U64), Add("b", U32), Add("c", U16), Add("d", U8), Add("e", U8), Close(Simple),
+                Rm("b"), Rm("c"), Rm("d"), Add("p", U16), Add("q", U16), Add("r", U16), Add("s", U16), Close(Simple),
+                Rm("e"), Add("t", B3), Add("u", U16), Add("v", U8), Close(Simple),
             ],
         },
         // optional values, the last fields being optional
@@ -344,6 +376,10 @@ pub fn build_with(def: &Def, perturb: Option<(&str, usize, Perturb)>) -> RecordD
                 ids.insert(n, id);
             }
             Rm(n) => b.remove_datum(ids[n]).unwrap_or_else(|e| panic!("rm {}: {}", n, e)),
+            AddRm(n, t) => {
+                let id = add(&mut b, n, *t, false);
+                b.remove_datum(id).unwrap_or_else(|e| panic!("rm pending {}: {}", n, e));
+            }
             Close(s) => {
                 match s {
                     Strat::Simple => b.close_record_variant_with(variant::simple),
